@@ -5,7 +5,7 @@ from .. import nf
 from ..model import AnalysisError
 from ..values import ExtObj, Num
 from .c10 import method_paths
-from .common import QUADRATURE, RES, check_quadrature, returns
+from .common import QUADRATURE, RES, check_quadrature, handwritten_quadrature, returns
 
 NX = nf.sym("self.nx")
 
@@ -30,18 +30,30 @@ def flux_mode(ctx, rule, cls="IdealReservoir"):
     n = 0
     for p in paths:
         evs = [e for e in p.events if e.kind == "ext_call" and e.data["callee"] in QUADRATURE]
-        if len(evs) != 1:
+        if len(evs) > 1:
             raise AnalysisError(f"{q}: expected one quadrature call on the flux path, found {len(evs)}")
-        ev = evs[0]
-        ykey = nf.key(it.to_nf(ev.data["args"].get("y")))
-        if ykey in seen:
-            continue
-        seen.add(ykey)
-        n += 1
-        where = f"{m.file}:{ev.line}"
-        y = check_quadrature(ctx, rule, ev, it, {"time"}, q + ":time quadrature", where)
-        if y is None:
-            continue
+        if not evs:
+            # no library call: the path may integrate by hand
+            vkey = nf.key(it.to_nf(p.value))
+            if vkey in seen:
+                continue
+            seen.add(vkey)
+            n += 1
+            where = m.where()
+            y = handwritten_quadrature(ctx, rule, it, it.to_nf(p.value), {"time", "self.time"}, q + ":time quadrature", where)
+            if y is None:
+                continue
+        else:
+            ev = evs[0]
+            ykey = nf.key(it.to_nf(ev.data["args"].get("y")))
+            if ykey in seen:
+                continue
+            seen.add(ykey)
+            n += 1
+            where = f"{m.file}:{ev.line}"
+            y = check_quadrature(ctx, rule, ev, it, {"time"}, q + ":time quadrature", where)
+            if y is None:
+                continue
         cols = {}
         for a in nf.atoms(y):
             if a[0] == "fn" and a[1] == "[]" and nf.unkey(a[2][0]) == nf.sym("self.pseudopressure") and len(a[2]) == 3:
@@ -89,7 +101,8 @@ def scale_rule(ctx, rule, cls="IdealReservoir"):
             if nf.key(v) in seen:
                 continue
             seen.add(nf.key(v))
-            st = [e for e in p.events if e.kind == "store_attr" and e.data["attr"] == "recovery"]
+            # the attribute is discovered (the one attribute the result is stored under), so a consistent rename is silent
+            st = [e for e in p.events if e.kind == "store_attr" and getattr(e.data.get("base"), "name", None) == "self"]
             same = len(st) == 1 and it.to_nf(st[0].data["value"]) == v
             ctx.check(same, rule, q + f":stored == returned [density={density}]", m.where(), "the returned recovery is the one cached in self.recovery", signature="stored != returned")
 
